@@ -529,6 +529,10 @@ func (s *Server) Prepare(conf *ServerConfig) (err error) {
 
 	s.dnsProxy = dnsProxy
 
+	// The new proxy numbers its requests from the beginning, so the ClientIDs
+	// stored for the requests of the previous one must not be found again.
+	s.clientIDCache.Clear()
+
 	s.setupAddrProc()
 
 	s.registerHandlers()
